@@ -1,8 +1,9 @@
 PROPS["C14"] = {
     "runs": [{"cmd": "c14.instantiate", "quick": 400, "thorough": 5000, "thorough_seeds": 2},
+             {"cmd": "c14.pipeline", "quick": 300, "thorough": 5000, "thorough_seeds": 2},
              {"cmd": "c14.tm", "quick": 200, "thorough": 2500, "thorough_seeds": 2, "oracle_only": True}],
     "nontrivial": lambda c: c["input"].count("(") >= 20,
-    "rule": "c14.instantiate: random templated models through the public API: 1-3 boolean parameters (some with defaults), 2-5 nonterminals with 0-2 parameters "
+    "rule": "c14.pipeline: the same models through Instantiate and then Expand, compared exactly with the composed models (exercises the group-delayed sortTail of Expand); c14.instantiate: random templated models through the public API: 1-3 boolean parameters (some with defaults), 2-5 nonterminals with 0-2 parameters "
             "(declaration order not always sorted), rules with conditionals over !, &&, ||, ==, != (values true/false/other strings/empty), nested conditionals inside nested "
             "choices, explicit and propagated (TakeFrom) arguments, optionals, lists with separators; syntax.Instantiate vs model (names with suffixes, order after sort+Rearrange, "
             "trees, inputs); c14.tm: the same as .tm text (%flag with defaults, by-name propagation, omitted arguments filled from defaults or same-named parameters, arguments in "
